@@ -1,6 +1,7 @@
 package main
 
 import (
+	"go/constant"
 	"go/token"
 	"go/types"
 
@@ -336,6 +337,10 @@ func c02(c *Ctx) {
 			if as := origins(cl.Call.Args[0]); len(as) != 1 || as[0].Kind != "global" {
 				return
 			}
+			if ownUnappliedEntry(p, inst, f, cl) {
+				r.OK("C02.R2", "table entry deleted only after restore in "+shortName(f), p.Pos(posOf(cl)), "the failing installer withdraws its own, never activated registration")
+				return
+			}
 			okPrev := passedBefore(f, cl, func(j ssa.Instruction) bool {
 				if ci, ok := j.(ssa.CallInstruction); ok {
 					if cal := staticCallee(ci.Common()); cal != nil && rr[cal] {
@@ -487,6 +492,127 @@ func nilGuardOnFieldEdge(pred, succ *ssa.BasicBlock, fld *types.Var) (isNil bool
 
 // prevPatchRestoredBefore: in the installer, a lookup of the patch table keyed by this patch's origin whose found-branch
 // restores the registered patch (and falls through) dominates instruction at.
+// ownUnappliedEntry: the delete at del (in f) withdraws the registration the installer made in this very call, on its
+// failure path, before anything was activated — f is a closure the installer defers; the delete runs only when the
+// installer's own error result is non-nil and the entry found under the origin key is the installer's receiver; and the
+// installer reaches no code that marks a guard applied. (A pre-existing entry has been restored before the registration:
+// that is the other half of R2.)
+func ownUnappliedEntry(p *Prog, inst, f *ssa.Function, del *ssa.Call) bool {
+	pr := p.patchRoles()
+	if inst == nil || f.Parent() != inst || len(inst.Params) == 0 || inst.Signature.Recv() == nil {
+		return false
+	}
+	// deferred only
+	nDefer := 0
+	okUse := true
+	eachInstr(inst, func(i ssa.Instruction) {
+		if mc, ok := i.(*ssa.MakeClosure); ok && mc.Fn == ssa.Value(f) {
+			for _, u := range *mc.Referrers() {
+				if d, ok := u.(*ssa.Defer); ok && d.Call.Value == ssa.Value(mc) {
+					nDefer++
+				} else if _, ok := u.(*ssa.DebugRef); !ok {
+					okUse = false
+				}
+			}
+		}
+	})
+	if nDefer != 1 || !okUse {
+		return false
+	}
+	// the key is the receiver's origin
+	capParam := func(v ssa.Value) *ssa.Parameter {
+		fv, ok := originOfFreeVar(v)
+		if !ok {
+			return nil
+		}
+		sv := capturedValue(inst, f, fv)
+		prm, _ := sv.(*ssa.Parameter)
+		return prm
+	}
+	recvOf := func(v ssa.Value) bool { return capParam(v) == inst.Params[0] }
+	keyOK := false
+	if base, fv, ok := fieldRef(resolveLocal(del.Call.Args[1])); ok && fv == pr.POrigin && recvOf(base) {
+		keyOK = true
+	}
+	if !keyOK {
+		return false
+	}
+	// the installer's result variable: every return of the installer loads it
+	var resAl *ssa.Alloc
+	for _, ret := range returnsOf(inst) {
+		if len(ret.Results) != 1 {
+			return false
+		}
+		u, ok := ret.Results[0].(*ssa.UnOp)
+		if !ok {
+			return false
+		}
+		al, ok := u.X.(*ssa.Alloc)
+		if !ok || (resAl != nil && resAl != al) {
+			return false
+		}
+		resAl = al
+	}
+	if resAl == nil {
+		return false
+	}
+	failing, own := false, false
+	for _, g := range guardsAt(del.Block()) {
+		b, ok := g.Cond.(*ssa.BinOp)
+		if !ok {
+			continue
+		}
+		for _, side := range [][2]ssa.Value{{b.X, b.Y}, {b.Y, b.X}} {
+			// err != nil on the installer's result
+			if c, isC := side[1].(*ssa.Const); isC && c.Value == nil {
+				if fv, isFv := originOfFreeVar(side[0]); isFv {
+					for k, x := range f.FreeVars {
+						if x != fv {
+							continue
+						}
+						eachInstr(inst, func(i ssa.Instruction) {
+							if mc, ok := i.(*ssa.MakeClosure); ok && mc.Fn == ssa.Value(f) && mc.Bindings[k] == ssa.Value(resAl) {
+								if (b.Op == token.NEQ) == g.Pol {
+									failing = true
+								}
+							}
+						})
+					}
+				}
+			}
+			// found entry == receiver
+			if ex, isEx := side[0].(*ssa.Extract); isEx && ex.Index == 0 {
+				if lk, isLk := ex.Tuple.(*ssa.Lookup); isLk {
+					if as := origins(lk.X); len(as) == 1 && as[0].Kind == "global" && sameGlobal(lk.X, del.Call.Args[0]) && recvOf(side[1]) {
+						if _, fv, ok := fieldRef(resolveLocal(lk.Index)); ok && fv == pr.POrigin && (b.Op == token.EQL) == g.Pol {
+							own = true
+						}
+					}
+				}
+			}
+		}
+	}
+	if !failing || !own {
+		return false
+	}
+	// nothing the installer reaches marks a guard applied
+	activates := false
+	for fn := range p.modReach(inst) {
+		eachInstr(fn, func(i ssa.Instruction) {
+			st, ok := i.(*ssa.Store)
+			if !ok {
+				return
+			}
+			if fa, ok := st.Addr.(*ssa.FieldAddr); ok && fieldVar(fa.X.Type(), fa.Field) == pr.GApplied {
+				if c, isC := st.Val.(*ssa.Const); !isC || c.Value == nil || constant.BoolVal(c.Value) {
+					activates = true
+				}
+			}
+		})
+	}
+	return !activates
+}
+
 func prevPatchRestoredBefore(p *Prog, inst *ssa.Function, at ssa.Instruction) bool {
 	op := p.patchRoles().POrigin
 	rr := restoreReachers(p)
@@ -538,4 +664,10 @@ func prevPatchRestoredBefore(p *Prog, inst *ssa.Function, at ssa.Instruction) bo
 		}
 	})
 	return okUnpatch
+}
+
+// sameGlobal: both values are reads of one and the same package-level variable.
+func sameGlobal(a, b ssa.Value) bool {
+	oa, ob := origins(a), origins(b)
+	return len(oa) == 1 && len(ob) == 1 && oa[0].Kind == "global" && ob[0].Kind == "global" && oa[0].Name == ob[0].Name
 }
